@@ -118,6 +118,10 @@ def o_c13(scn, obs, runner):
     """not connected => AdbConnectionError, empty path => DevicePathInvalidError, nothing sent, no local file; `available` truthful."""
     fails = []
     avail = bool(scn.get("preset", {}).get("avail", 0))
+
+    def touched_sink(o):
+        # a real destination path must not even have been created; a BytesIO must still be empty
+        return o["sink"] != "N" if o.get("sink_kind") == "file" else o["sink"] not in ("N", "-")
     for i, (op, o) in enumerate(zip(scn["ops"], obs)):
         k = op["op"]
         if k == "connect":
@@ -127,10 +131,10 @@ def o_c13(scn, obs, runner):
         else:
             empty_path = k in ("list", "stat", "pull", "push") and op.get("path") == b""
             if empty_path:
-                if o["res"] != "err DevicePathInvalidError" or o["peer"] != "-" or o["sink"] not in ("N", "-") or "tconnect" in o["ev"]:
+                if o["res"] != "err DevicePathInvalidError" or o["peer"] != "-" or touched_sink(o) or "tconnect" in o["ev"]:
                     fails.append(dict(op=i, why="%s with an empty device path: %s, sent %s, sink %s" % (k, o["res"], o["peer"][:40], o["sink"][:20])))
             elif not avail:
-                if o["res"] != "err AdbConnectionError" or o["peer"] != "-" or o["sink"] not in ("N", "-"):
+                if o["res"] != "err AdbConnectionError" or o["peer"] != "-" or touched_sink(o):
                     fails.append(dict(op=i, why="%s on an unconnected device: %s, sent %s, sink %s" % (k, o["res"], o["peer"][:40], o["sink"][:20])))
         if bool(o["avail"]) != avail:
             fails.append(dict(op=i, why="available=%s after %s but the connection history says %s" % (bool(o["avail"]), k, avail)))
